@@ -18,8 +18,8 @@ def start(paths, ck, cfg, d, n):
     x = Exec(paths[cfg]['exe'], paths[cfg]['lib'], os.path.join(d, 'softhsm2.conf'), ck, env=env, stderr=f'{d}/stderr-p{n}-{len(os.listdir(d))}.log'); x.timeout = 180
     return x
 
-def prepare(paths, ck, d):
-    mkconf(d, 'file'); x = start(paths, ck, 'plain', d, 99)
+def prepare(paths, ck, d, backend='file'):
+    mkconf(d, backend); x = start(paths, ck, 'plain' if 'plain' in paths else 'asan', d, 99)
     assert x.call('C_Initialize', locking='os')['rv'] == 0
     slot = x.call('C_GetSlotList', count=8)['slots'][-1]
     assert x.call('C_InitToken', slot=slot, pin=SO.hex(), label=b'tok15'.hex())['rv'] == 0
@@ -34,9 +34,9 @@ def attach(x):
     return s
 
 def obj_value(label, big=False): return (b'V' * 16 + label) * (400 if big else 1)      # big: ~10 KiB, the object file is rewritten with several write() calls
-def obj_tmpl(x, label, ident, private, big=False, **extra):
+def obj_tmpl(x, label, ident, private, big=False, value=None, **extra):
     ck = x.ck
-    a = {'CKA_CLASS': ck.CKO_SECRET_KEY, 'CKA_KEY_TYPE': ck.CKK_GENERIC_SECRET, 'CKA_TOKEN': True, 'CKA_PRIVATE': private, 'CKA_LABEL': label, 'CKA_ID': ident, 'CKA_VALUE': obj_value(label, big), 'CKA_SENSITIVE': False, 'CKA_EXTRACTABLE': True}
+    a = {'CKA_CLASS': ck.CKO_SECRET_KEY, 'CKA_KEY_TYPE': ck.CKK_GENERIC_SECRET, 'CKA_TOKEN': True, 'CKA_PRIVATE': private, 'CKA_LABEL': label, 'CKA_ID': ident, 'CKA_VALUE': value if value is not None else obj_value(label, big), 'CKA_SENSITIVE': False, 'CKA_EXTRACTABLE': True}
     a.update(extra); return x.T(a)
 
 # ------------------------------------------------------------------ (i) call granularity
@@ -44,73 +44,77 @@ OPS = ['create', 'set', 'destroy', 'find', 'get']
 def serial_job(job):
     from ck import CK
     ck = CK(job['hdr']); part = Part(); rnd = random.Random(job['seed']); d = os.path.join(job['scratch'], 'ser-%d' % job['seed']); shutil.rmtree(d, ignore_errors=True); os.makedirs(d)
-    X = []
+    X = []; be = ''
     try:
-        prepare(job['paths'], ck, d); nproc = job['nproc']
+        prepare(job['paths'], ck, d, job.get('backend', 'file')); nproc = job['nproc']; be = '' if job.get('backend', 'file') == 'file' else ',db'
         X = [start(job['paths'], ck, job['cfg'], d, i) for i in range(nproc)]; S = [attach(x) for x in X]
         # model: label -> {'id': bytes, 'private': bool}; per process: known handles label -> handle
         model = {}; handles = [dict() for _ in range(nproc)]; counter = [0]
         def refresh_handle(p, label):
             rvn, hs = X[p].findall(S[p], {'CKA_LABEL': label}); return hs
+        def stale(fn, rvn, case, oplog):
+            """a call through a handle whose object another process destroyed (the label may exist again as ANOTHER object) must say CKR_OBJECT_HANDLE_INVALID"""
+            if rvn == 'CKR_OBJECT_HANDLE_INVALID': return
+            if be: part.violation(f'{fn}|handle-of-object-destroyed-by-other-process,db|not-invalidated', 'db back-end: a handle whose object another process destroyed has not become invalid', {'case': case, 'rv': rvn, 'oplog': oplog})
+            elif fn == 'C_GetAttributeValue': part.violation(f'C_GetAttributeValue|handle-of-object-destroyed-by-other-process|{rvn}', 'a handle whose object another process destroyed has not become invalid', {'case': case, 'oplog': oplog})
+            else: part.violation(f'{fn}|handle-of-object-destroyed-by-other-process|accepted' if rvn == 'CKR_OK' else f'{fn}|handle-of-object-destroyed-by-other-process|{rvn}', 'a handle whose object another process destroyed is still accepted', {'case': case, 'oplog': oplog})
         for case in range(job['cases']):
             # scripts: each process a few ops on two shared labels; a random interleaving (quick) — enumeration happens over cases via the seed
             labels = [b'L%d-a' % case, b'L%d-b' % case]; scripts = [[(rnd.choice(OPS), rnd.choice(labels)) for _ in range(rnd.randrange(1, 4))] for _ in range(nproc)]
             order = [p for p in range(nproc) for _ in scripts[p]]
-            perms = job['perms'] if job['perms'] else None
             rnd.shuffle(order); idx = [0] * nproc; shape = []; oplog = []
             for p in order:
                 op, label = scripts[p][idx[p]]; idx[p] += 1; x = X[p]; s = S[p]; exists = label in model; shape.append((p, op, exists)); oplog.append((p, op, label.decode(), exists))
+                cur = model[label]['inc'] if exists else None                     # handles are remembered with the incarnation of the label they were issued for
+                def lookup():
+                    """the process's handle for the label: a remembered one (possibly of an earlier incarnation) or a fresh search; -> (handle, incarnation) or None"""
+                    hi = handles[p].get(label)
+                    if hi is not None: return hi
+                    hs = refresh_handle(p, label)
+                    if exists and len(hs) != 1: part.violation(f'C_FindObjects|after-other-process-create{be}|found-{len(hs)}', 'an object committed by another process is not found (exactly once) at the next call', {'case': case, 'label': label.decode(), 'oplog': oplog}); return None
+                    if not exists and hs: part.violation(f'C_FindObjects|after-other-process-destroy{be}|found-{len(hs)}', 'a search does not reflect what another process committed before this call', {'case': case, 'label': label.decode(), 'oplog': oplog}); return None
+                    if not hs: return None
+                    handles[p][label] = (hs[0], cur); return handles[p][label]
                 if op == 'create':
                     if exists: continue
                     counter[0] += 1; ident = b'p%d:%d' % (p, counter[0]); priv = rnd.random() < 0.5
-                    r = x.call('C_CreateObject', s=s, tmpl=obj_tmpl(x, label, ident, priv))
-                    if r['rv'] == 0: model[label] = {'id': ident, 'private': priv}; handles[p][label] = r['h']
+                    val = obj_value(label + b'#' + ident)          # the value names the incarnation: a re-created label must not show an earlier incarnation's value
+                    r = x.call('C_CreateObject', s=s, tmpl=obj_tmpl(x, label, ident, priv, value=val))
+                    if r['rv'] == 0: model[label] = {'id': ident, 'private': priv, 'value': val, 'inc': ident}; handles[p][label] = (r['h'], ident)
                     else: part.observe('create failed', r['rvname'])
                 elif op == 'set':
-                    h = handles[p].get(label)
-                    if h is None:
-                        hs = refresh_handle(p, label)
-                        if exists and len(hs) != 1: part.violation(f'C_FindObjects|after-other-process-create|found-{len(hs)}', 'an object committed by another process is not found (exactly once) at the next call', {'case': case, 'label': label.decode(), 'oplog': oplog}); continue
-                        if not hs: continue
-                        h = hs[0]; handles[p][label] = h
-                    counter[0] += 1; ident = b'p%d:%d' % (p, counter[0])
+                    hi = lookup()
+                    if hi is None: continue
+                    h, inc = hi; counter[0] += 1; ident = b'p%d:%d' % (p, counter[0])
                     r = x.call('C_SetAttributeValue', s=s, o=h, tmpl=x.T({'CKA_ID': ident}))
-                    if exists:
+                    if exists and inc == cur:
                         if r['rv'] == 0: model[label]['id'] = ident
                         else: part.observe('set on a live object failed', r['rvname'])
-                    else:
-                        if r['rv'] == 0: part.violation('C_SetAttributeValue|handle-of-object-destroyed-by-other-process|accepted', 'a handle whose object another process destroyed is still accepted', {'case': case, 'oplog': oplog})
-                        handles[p].pop(label, None)
+                    else: stale('C_SetAttributeValue', r['rvname'], case, oplog); handles[p].pop(label, None)
                 elif op == 'destroy':
-                    h = handles[p].get(label)
-                    if h is None:
-                        hs = refresh_handle(p, label)
-                        if exists and len(hs) != 1: part.violation(f'C_FindObjects|after-other-process-create|found-{len(hs)}', 'an object committed by another process is not found (exactly once) at the next call', {'case': case, 'label': label.decode(), 'oplog': oplog}); continue
-                        if not hs: continue
-                        h = hs[0]
-                    r = x.call('C_DestroyObject', s=s, o=h); handles[p].pop(label, None)
-                    if exists:
+                    hi = lookup()
+                    if hi is None: continue
+                    h, inc = hi; r = x.call('C_DestroyObject', s=s, o=h); handles[p].pop(label, None)
+                    if exists and inc == cur:
                         if r['rv'] == 0: del model[label]
                         else: part.observe('destroy of a live object failed', r['rvname'])
-                    elif r['rv'] == 0: part.violation('C_DestroyObject|handle-of-object-destroyed-by-other-process|accepted', 'a handle whose object another process destroyed is still accepted', {'case': case, 'oplog': oplog})
+                    else: stale('C_DestroyObject', r['rvname'], case, oplog)
                 elif op == 'find':
                     hs = refresh_handle(p, label)
                     if len(hs) != (1 if exists else 0):
-                        part.violation(f'C_FindObjects|{"after-other-process-create" if exists else "after-other-process-destroy"}|found-{len(hs)}', 'a search does not reflect what another process committed before this call', {'case': case, 'label': label.decode(), 'oplog': oplog})
-                    elif hs: handles[p][label] = hs[0]
+                        part.violation(f'C_FindObjects|{"after-other-process-create" if exists else "after-other-process-destroy"}{be}|found-{len(hs)}', 'a search does not reflect what another process committed before this call', {'case': case, 'label': label.decode(), 'oplog': oplog})
+                    elif hs: handles[p][label] = (hs[0], cur)
                 elif op == 'get':
-                    h = handles[p].get(label)
-                    if h is None: continue
-                    rvn, vals = x.getattrs(s, h, ['CKA_ID', 'CKA_VALUE'])
-                    if exists:
+                    hi = handles[p].get(label)
+                    if hi is None: continue
+                    h, inc = hi; rvn, vals = x.getattrs(s, h, ['CKA_ID', 'CKA_VALUE'])
+                    if exists and inc == cur:
                         if vals.get('CKA_ID') != model[label]['id']:
-                            # the handle may denote an earlier incarnation of the label (destroyed and re-created by someone else): then it must be invalid
-                            if rvn != 'CKR_OBJECT_HANDLE_INVALID': part.violation('C_GetAttributeValue|after-other-process-set|stale-or-wrong-value', 'an attribute changed by another process is not seen at the next call', {'case': case, 'got': vals.get('CKA_ID'), 'want': model[label]['id'], 'rv': rvn, 'shape': shape})
-                            else: handles[p].pop(label, None)
-                    else:
-                        if rvn != 'CKR_OBJECT_HANDLE_INVALID': part.violation(f'C_GetAttributeValue|handle-of-object-destroyed-by-other-process|{rvn}', 'a handle whose object another process destroyed has not become invalid', {'case': case, 'oplog': oplog})
-                        handles[p].pop(label, None)
-            part.case(('serial', tuple((op, ex) for (p, op, ex) in shape), tuple(p for (p, _, _) in shape)), sample={'interleaving': [(p, op, 'exists' if ex else 'absent') for (p, op, ex) in shape]} if case == 0 else None)
+                            part.violation(f'C_GetAttributeValue|after-other-process-set{be}|stale-or-wrong-value', 'an attribute changed by another process is not seen at the next call', {'case': case, 'got': vals.get('CKA_ID'), 'want': model[label]['id'], 'rv': rvn, 'oplog': oplog})
+                        elif vals.get('CKA_VALUE') != model[label]['value']:
+                            part.violation(f'C_GetAttributeValue|after-other-process-recreate{be}|value-of-an-earlier-object', 'a handle shows the current CKA_ID of a label together with the CKA_VALUE of an object another process destroyed (attributes of two objects mixed)', {'case': case, 'got': (vals.get('CKA_VALUE') or b'')[:48], 'want': model[label]['value'][:48], 'rv': rvn, 'oplog': oplog})
+                    else: stale('C_GetAttributeValue', rvn, case, oplog); handles[p].pop(label, None)
+            part.case(('serial' + be, tuple((op, ex) for (p, op, ex) in shape), tuple(p for (p, _, _) in shape)), sample={'interleaving': [(p, op, 'exists' if ex else 'absent') for (p, op, ex) in shape]} if case == 0 else None)
             # tidy: destroy the case's objects through process 0 so the directory stays small
             for label in list(model):
                 hs = refresh_handle(0, label)
@@ -120,7 +124,11 @@ def serial_job(job):
         for x in X: x.call('C_Finalize'); x.close()
         X = []
     except AssertionError as e: part.inconc(f'setup failed: {e!r}')
-    except Died as ex: part.observe('side:C17 library terminated the host', {'kind': ex.kind(), 'fn': ex.fn}); part.inconc(f'executor died: {ex}')
+    except Died as ex:
+        if job.get('deaths') == 'violation':        # C17 runs these interleavings too: there a death IS the verdict (key prefix DEATH|, everything else in this Part is ignored by C17)
+            part.violation('DEATH|%s|multi-process:serialised-interleaving%s|%s@%s' % (ex.fn, be, ex.kind(), ex.where()), f'the library terminated a host process inside {ex.fn} while several processes shared the token',
+                           {'mode': 'multi-process', 'seed': job['seed'], 'backend': job.get('backend', 'file'), 'nproc': job['nproc'], 'note': ex.note, 'stderr_tail': (ex.stderr_tail or '')[-1800:]})
+        else: part.observe('side:C17 library terminated the host', {'kind': ex.kind(), 'fn': ex.fn}); part.inconc(f'executor died: {ex}')
     except Hang: part.inconc('hang in serialised run')
     finally:
         for x in X: x.kill()
@@ -155,7 +163,7 @@ def observer_job(job):
                                                              'CKA_WRAP': True, 'CKA_ENCRYPT': True, 'CKA_SIGN': True, 'CKA_DERIVE': True, 'CKA_SENSITIVE': False, 'CKA_EXTRACTABLE': True}))
                 assert r['rv'] == 0; hA = r['h']
                 hs = B.findall(sB, {'CKA_LABEL': lab})[1]; hw = B.findall(sB, {'CKA_LABEL': b'WRAPPER'})[1]
-                if len(hs) != 1 or len(hw) != 1: part.violation(f'C_FindObjects|after-other-process-create|found-{len(hs)}', 'an object committed by another process is not found at the next call', {'label': lab.decode()}); continue
+                if len(hs) != 1 or len(hw) != 1: part.violation(f'C_FindObjects|after-other-process-create{be}|found-{len(hs)}', 'an object committed by another process is not found at the next call', {'label': lab.decode()}); continue
                 hB, wB = hs[0], hw[0]
                 def call_kind():
                     if kind == 'C_DigestKey':
@@ -330,6 +338,8 @@ def dispatch(j): return serial_job(j) if j['kind'] == 'serial' else duel_job(j) 
 def run(ctx):
     ctx.need('plain', 'asan'); common = dict(paths=ctx.paths, hdr=ctx.paths['asan']['hdr'], scratch=ctx.scratch); jobs = []
     for i in range(ctx.q(32, 64)): jobs.append(dict(common, kind='serial', cfg='asan' if i % 4 == 0 else 'plain', seed=ctx.seed * 1000 + i, nproc=2 + (i % 2), cases=ctx.q(40, 200), perms=None))
+    # the same serialised interleavings on the SQLite back-end (the statement is about processes sharing a token, whatever stores it)
+    for i in range(ctx.q(8, 24)): jobs.append(dict(common, kind='serial', backend='db', cfg='asan' if i % 4 == 0 else 'plain', seed=ctx.seed * 1000 + 900 + i, nproc=2 + (i % 2), cases=ctx.q(40, 200), perms=None))
     for i in range(ctx.q(96, 240)): jobs.append(dict(common, kind='conc', cfg='asan' if i % 4 == 0 else 'plain', seed=ctx.seed * 1000 + 500 + i, nproc=2 + (i % 2), iters=ctx.q(30, 50), delay_p=0.3, delay_us=rnd_us(i)))
     for i in range(ctx.q(2, 8)): jobs.append(dict(common, kind='observer', cfg='asan' if i % 2 else 'plain', seed=ctx.seed * 1000 + 700 + i))
     for i in range(ctx.q(16, 48)): jobs.append(dict(common, kind='duel', cfg='plain', seed=ctx.seed * 1000 + 800 + i, nproc=2 + (i % 2), rounds=ctx.q(30, 60), delay_p=[0.3, 0.6][i % 2], delay_us=[50, 200, 800][i % 3]))
@@ -337,6 +347,6 @@ def run(ctx):
     ctx.rule = ('(i) one evaluation = one serialised interleaving of 2-3 processes x 1-3 calls (create/set/destroy/find/get on shared labels), distinct = (operation/existence shape, process order); '
                 '(ii) one evaluation = one concurrent run of 2-3 processes (30-50 script steps each) with PRNG delays at FS operations, checked by a history checker (unique written values, per-object register rule, conservation of objects); '
                 'non-trivial when at least one write committed; (iii) duels: rounds in which all processes start a C_CreateObject simultaneously (PRNG delays before record locks and at FS operations) and then only search: a search that begins after another create returned must find the object')
-    ctx.assumptions += ['file back-end only (the anchors)', 'FS-level interleavings are made likely by delays, not enumerated', 'a call that fails under contention is not a committed write; it is counted as an observation']
+    ctx.assumptions += ['concurrent runs, duels and observers: file back-end (the anchors); serialised interleavings: file and db back-ends', 'FS-level interleavings are made likely by delays, not enumerated', 'a call that fails under contention is not a committed write; it is counted as an observation']
 def rnd_us(i): return [50, 200, 1000, 3000][i % 4]
 if __name__ == '__main__': main('C15', run, min_evaluations=100, min_distinct=30)
